@@ -883,7 +883,8 @@ impl<T: Serialize + for<'de> Deserialize<'de> + Clone + PartialEq + Send + Sync 
     async fn recover_from_snapshot(&self, stats: &mut RecoveryStats) -> Result<()> {
         let snapshots = self.find_snapshots()?;
 
-        for snapshot_path in snapshots.iter().rev() {
+        // find_snapshots() already returns the newest snapshot first
+        for snapshot_path in snapshots.iter() {
             match self.load_snapshot(snapshot_path).await {
                 Ok((header, loaded_state, data)) => {
                     // Verify checksum over the bytes that were read (re-serialising
